@@ -10,6 +10,7 @@ import Minicbor.Drv.Parse
 import Minicbor.Drv.Derive
 import Minicbor.Drv.Typed
 import Minicbor.Drv.Token
+import Minicbor.Drv.Balanced
 import Minicbor.Drv.Frame
 import Minicbor.Drv.Serde
 
@@ -32,6 +33,7 @@ def dispatch (line : String) : String :=
   | "tdec" :: w => Typed.tdecOp w
   | "tokenc" :: w => Tok.tokencOp w
   | "tokdec" :: w => Tok.tokdecOp w
+  | "balanced" :: w => Bal.balancedOp w
   | "display" :: w => Tok.displayOp w
   | "fwrite" :: w => fwriteOp w
   | "fread" :: w => freadOp w
